@@ -272,6 +272,80 @@ Check xn_encode_total :
 Print Assumptions xn_encode_total.
 
 (* ---------------------------------------------------------------------------------------------
+   serialised forms (ModelSer.v): the bytes a decoder on another object reads back
+   --------------------------------------------------------------------------------------------- *)
+From Coq Require Import Permutation.
+From ZV.C01 Require Import ModelSer ProofsSer ProofsSerCtx.
+(* HuffmanTree::deserialize(HuffmanTree::serialize()) reads the same code table back (bytes behind the table are
+   ignored), whatever order the HashMap listed the codes in (= the list order of tb) and whatever order `hm` the new
+   HashMap is visited in when the decoding tree is rebuilt *)
+Theorem ht_deserialize_serialize :
+  forall hm tb extra, ser_ok tb = true ->
+  ht_deserialize hm (ht_serialize tb ++ extra) =
+  match build_root (hm tb) with Some r => Some (mkHT r tb) | None => None end.
+Proof. exact ht_deserialize_serialize_proof. Qed.
+Check ht_deserialize_serialize :
+  forall hm tb extra, ser_ok tb = true ->
+  ht_deserialize hm (ht_serialize tb ++ extra) =
+  match build_root (hm tb) with Some r => Some (mkHT r tb) | None => None end.
+Print Assumptions ht_deserialize_serialize.
+
+(* a HuffmanDecoder on the deserialised copy of the encoder's tree decodes what the encoder wrote *)
+Theorem ht_serialized_decodes :
+  forall hm ht d b, (forall t, Permutation (hm t) t) ->
+  ser_ok (ht_codes ht) = true -> prefix_free (ht_codes ht) = true -> huff_encode ht d = Some b ->
+  exists ht', ht_deserialize hm (ht_serialize (ht_codes ht)) = Some ht' /\ ht_codes ht' = ht_codes ht /\
+              wf_ht ht' = true /\ huff_decode ht' b (length d) = Some d.
+Proof. exact ht_serialized_decodes_proof. Qed.
+Check ht_serialized_decodes :
+  forall hm ht d b, (forall t, Permutation (hm t) t) ->
+  ser_ok (ht_codes ht) = true -> prefix_free (ht_codes ht) = true -> huff_encode ht d = Some b ->
+  exists ht', ht_deserialize hm (ht_serialize (ht_codes ht)) = Some ht' /\ ht_codes ht' = ht_codes ht /\
+              wf_ht ht' = true /\ huff_decode ht' b (length d) = Some d.
+Print Assumptions ht_serialized_decodes.
+
+(* ... and the side condition holds for every tree / table pair that agree (what from_frequencies builds) *)
+Theorem wf_table_prefix_free :
+  forall ht, wf_ht ht = true -> nodup_keys (ht_codes ht) = true -> prefix_free (ht_codes ht) = true.
+Proof. exact wf_prefix_free. Qed.
+Check wf_table_prefix_free :
+  forall ht, wf_ht ht = true -> nodup_keys (ht_codes ht) = true -> prefix_free (ht_codes ht) = true.
+Print Assumptions wf_table_prefix_free.
+
+(* ContextualHuffmanEncoder::deserialize(serialize()) = the same order, context map and code tables (`twin`), with every
+   check of deserialize passed *)
+Theorem c_deserialize_serialize :
+  forall hm e, (forall t, Permutation (hm t) t) -> cser_ok e = true ->
+  c_deserialize hm (c_serialize e) = Some (twin hm e).
+Proof. exact c_deserialize_serialize_proof. Qed.
+Check c_deserialize_serialize :
+  forall hm e, (forall t, Permutation (hm t) t) -> cser_ok e = true ->
+  c_deserialize hm (c_serialize e) = Some (twin hm e).
+Print Assumptions c_deserialize_serialize.
+
+(* a ContextualHuffmanDecoder on the deserialised copy decodes what the original encoder wrote (orders 0/1/2) *)
+Theorem ctx_serialized_decodes :
+  forall hm e d b, (forall t, Permutation (hm t) t) -> cser_ok e = true -> ctx_encode e d = Some b ->
+  exists e', c_deserialize hm (c_serialize e) = Some e' /\ wf_cenc e' = true /\ ctx_decode e' b (length d) = Some d.
+Proof. exact ctx_serialized_decodes_proof. Qed.
+Check ctx_serialized_decodes :
+  forall hm e d b, (forall t, Permutation (hm t) t) -> cser_ok e = true -> ctx_encode e d = Some b ->
+  exists e', c_deserialize hm (c_serialize e) = Some e' /\ wf_cenc e' = true /\ ctx_decode e' b (length d) = Some d.
+Print Assumptions ctx_serialized_decodes.
+
+(* ... and so do its interleaved decoders, for every stream count *)
+Theorem xn_serialized_decodes :
+  forall hm e nst d b, (forall t, Permutation (hm t) t) -> cser_ok e = true -> (1 <= nst)%nat ->
+  xn_encode e nst d = Some b ->
+  exists e', c_deserialize hm (c_serialize e) = Some e' /\ xn_decode e' nst b (length d) = Some d.
+Proof. exact xn_serialized_decodes_proof. Qed.
+Check xn_serialized_decodes :
+  forall hm e nst d b, (forall t, Permutation (hm t) t) -> cser_ok e = true -> (1 <= nst)%nat ->
+  xn_encode e nst d = Some b ->
+  exists e', c_deserialize hm (c_serialize e) = Some e' /\ xn_decode e' nst b (length d) = Some d.
+Print Assumptions xn_serialized_decodes.
+
+(* ---------------------------------------------------------------------------------------------
    rANS / FSE / LZ half.  The import below comes after the Huffman theorems on purpose: the two halves
    define a few names twice (e.g. dec_loop) and the later import shadows the earlier one.
    --------------------------------------------------------------------------------------------- *)
